@@ -383,3 +383,89 @@ Fixpoint ref_get_at (p : list pelem) (pos : nat) (l : list N) : option (nat * na
     end
   end.
 Definition ref_get (l : list N) (p : list pelem) : option (nat * nat) := ref_get_at p 0 l.
+
+(* ---------- reference behaviour of the lazy iterators on arbitrary bytes (C12) ---------- *)
+Inductive item := IOk (key : list N) (a b : nat) | IErr | IEnd.
+
+Fixpoint arr_items (fuel : nat) (first : bool) (pos : nat) (l : list N) : list item :=
+  match fuel with O => [IErr] | S f =>
+  let l1 := ws l in
+  let p1 := (pos + (length l - length l1))%nat in
+  match l1 with
+  | [] => [IErr]
+  | c :: r =>
+    if c =? 93 then [IEnd]
+    else
+      let '(p2, l2, ok) := if first then (p1, l1, true) else if c =? 44 then (S p1, r, true) else (p1, l1, false) in
+      if ok then
+        match pvalue false (fuel_for l2) p2 l2 with
+        | None => [IErr]
+        | Some (_, a, b, rest) => IOk [] a b :: arr_items f false b rest
+        end
+      else [IErr]
+  end end.
+
+Definition ref_array_iter (l : list N) : list item :=
+  if utf8_valid l then
+    match ws l with
+    | 91 :: r => arr_items (S (length l)) true (S (length l - length (ws l))) r
+    | _ => [IErr]
+    end
+  else [IErr].
+
+Fixpoint obj_items (fuel : nat) (first : bool) (pos : nat) (l : list N) : list item :=
+  match fuel with O => [IErr] | S f =>
+  let l1 := ws l in
+  let p1 := (pos + (length l - length l1))%nat in
+  match l1 with
+  | [] => [IErr]
+  | c :: r =>
+    if c =? 125 then [IEnd]
+    else
+      (* position of the key's opening quote *)
+      let '(p2, l2, ok) :=
+        if first then (p1, l1, true)
+        else if c =? 44 then let r1 := ws r in ((S p1 + (length r - length r1))%nat, r1, true) else (p1, l1, false) in
+      if ok then
+        match l2 with
+        | 34 :: kr =>
+          match str_body true (S (length kr)) kr with
+          | None => [IErr]
+          | Some (k, _, rest) =>
+            let pk := (p2 + (length l2 - length rest))%nat in
+            let r1 := ws rest in
+            let pc := (pk + (length rest - length r1))%nat in
+            match r1 with
+            | 58 :: r2 =>
+              match pvalue false (fuel_for r2) (S pc) r2 with
+              | None => [IErr]
+              | Some (_, a, b, r3) => IOk k a b :: obj_items f false b r3
+              end
+            | _ => [IErr]
+            end
+          end
+        | _ => [IErr]
+        end
+      else [IErr]
+  end end.
+
+Definition ref_object_iter (l : list N) : list item :=
+  if utf8_valid l then
+    match ws l with
+    | 123 :: r => obj_items (S (length l)) true (S (length l - length (ws l))) r
+    | _ => [IErr]
+    end
+  else [IErr].
+
+(* ---------- get_by_schema: the schema with every key present in the document replaced
+   (recursively for non-empty object schemas) by the document's value ---------- *)
+Fixpoint merge (fuel : nat) (sch doc : jv) : jv :=
+  match fuel with O => doc | S f =>
+  match sch, doc with
+  | JObj (sm :: sms), JObj dms =>
+      JObj (map (fun m => match m with (k, a, b, sv) =>
+                   match assoc_first dms k with
+                   | Some (_, _, dv) => (k, a, b, merge f sv dv)
+                   | None => (k, a, b, sv) end end) (sm :: sms))
+  | _, _ => doc
+  end end.
